@@ -9,6 +9,7 @@ timeout 3000 make -j16 > "$here/coq/build.log" 2>&1 || { tail -40 "$here/coq/bui
 cd "$here"
 for spec in $(cat runner/models.txt); do
   name=$(echo "$spec" | cut -d: -f1); vfile=$(echo "$spec" | cut -d: -f2)
-  if [ -f "coq/Extract/$vfile" ]; then ./runner/build.sh "$name" "$vfile"; fi
+  entry=$(echo "$spec" | cut -d: -f4)
+  if [ -f "coq/Extract/$vfile" ]; then ./runner/build.sh "$name" "$vfile" $entry; fi
 done
 echo "setup ok"
